@@ -216,6 +216,15 @@ Theorem html_document : forall enc T php encoding preamble es out,
 Proof. exact html_document_holds. Qed.
 Print Assumptions html_document.
 
+(* one back-end object used several times (documents, renderings, format_str, write_entry in any
+   order): the k-th document it writes is the document it would write alone -- prologue + entries +
+   epilogue of THAT document, nothing of earlier ones *)
+Theorem history_independent : forall enc T b php encoding st ops k pre es,
+  nth_error ops k = Some (OpDoc pre es) ->
+  nth_error (run_history enc T b php encoding st ops) k = Some (write_to_stream enc T b php encoding pre es).
+Proof. exact history_document_alone. Qed.
+Print Assumptions history_independent.
+
 (* ---- non-vacuity ---- *)
 
 Example md_table_example : md_table_shape markdown_escapable = true /\ same_set markdown_escapable markdown_escapable = true /\
